@@ -109,7 +109,11 @@ class SuperNet(DNAS):
         :rtype: nn.Module
         """
         model = self.seed
+        # tracing forces `eval()` on the inner model: restore its training status afterwards
+        modes = [(m, m.training) for m in self.seed.modules()]
         model, _, _ = convert(model, self._input_example, 'export')
+        for m, mode in modes:
+            m.training = mode
         return model
 
     def summary(self) -> Dict[str, Dict[str, Any]]:
